@@ -334,7 +334,7 @@ pub fn run(ctx: &Ctx) -> Outcome {
     // the same resolution in the other configuration in which settings exist: tz-rs built with `alloc` only (no `std`). A probe binary
     // (cfgprobe, C19's) runs the cases there; each must first pass the reference comparison above, then print what the std build prints
     // (paths opened, in order, and the result).
-    {
+    if std::env::var("VERIF_C20_SKIP_ALLOC_ONLY").is_err() {
         use crate::props::c19;
         let n = ctx.tier.pick(4_000usize, 60_000usize);
         let mut dr = Drawer::new(ctx, "alloc-only", 0);
